@@ -1455,6 +1455,510 @@ def stream_twins(ctx):
     ctx.extra_cov["accelerator_subsets_covered"] = min(n, len(subsets))
 
 
+# ================================================================================================
+# FORMAT streams: model vs real, byte for byte and cross-decoding
+# ================================================================================================
+
+def _csv(xs):
+    xs = list(xs)
+    return ",".join(str(x) for x in xs) if xs else "-"
+
+
+def gen_bits(rng) -> tuple[str, list[int]]:
+    """Set-bit positions with the shapes that drive the EWAH encoder through all its branches."""
+    kind = rng.choice(["empty", "single", "sparse", "dense", "ones-run", "zeros-then", "mixed", "boundary", "alt-runs",
+                       "lit-after-run", "full-words"])
+    W = 64
+    if kind == "empty":
+        return kind, []
+    if kind == "single":
+        return kind, [rng.choice([0, 1, 62, 63, 64, 65, 127, 128, 191, 192, 4095, 4096, rng.randrange(20000)])]
+    if kind == "sparse":
+        return kind, sorted({rng.randrange(rng.choice([70, 300, 5000])) for _ in range(rng.randint(1, 12))})
+    if kind == "dense":
+        n = rng.choice([10, 64, 65, 130, 400])
+        return kind, [i for i in range(n) if rng.random() < 0.7]
+    if kind == "ones-run":
+        a, k = rng.randint(0, 3), rng.randint(1, 5)
+        bits = list(range(a * W, (a + k) * W))
+        if rng.random() < 0.5:
+            bits += [(a + k) * W + rng.randrange(W)]
+        if rng.random() < 0.3 and a:
+            bits += [rng.randrange(a * W)]
+        return kind, sorted(set(bits))
+    if kind == "zeros-then":
+        return kind, sorted({rng.randint(2, 40) * W + rng.randrange(W) for _ in range(rng.randint(1, 3))})
+    if kind == "boundary":
+        pool = [0, 63, 64, 127, 128, 129, 191, 192, 255, 256]
+        return kind, sorted(set(rng.sample(pool, rng.randint(1, len(pool)))))
+    if kind == "full-words":
+        k = rng.randint(1, 4)
+        return kind, list(range(k * W))
+    # mixed / alt-runs / lit-after-run: word-level composition
+    words = []
+    for _ in range(rng.randint(1, 12)):
+        t = rng.choice(["z", "o", "l", "l"]) if kind != "alt-runs" else rng.choice(["z", "o"])
+        rep = rng.randint(1, 4)
+        for _ in range(rep):
+            words.append(0 if t == "z" else (2 ** 64 - 1) if t == "o" else rng.getrandbits(64) | 1 << rng.randrange(64))
+    bits = [i * W + j for i, w in enumerate(words) for j in range(W) if w >> j & 1]
+    return kind, bits
+
+
+def stream_ewah(ctx):
+    import struct
+    from dulwich.bitmap import EWAHBitmap, _encode_ewah_words
+    rng = ctx.rng
+    cases = [("fixed", []), ("fixed", [0]), ("fixed", [63]), ("fixed", [64]), ("fixed", list(range(64))),
+             ("fixed", list(range(128))), ("fixed", list(range(64, 128))), ("fixed", [0] + list(range(64, 192)) + [200])]
+    cases += [gen_bits(rng) for _ in range(ctx.budget(400))]
+    lines = ["c14.ewah.enc " + _csv(b) for _, b in cases]
+    outs = ctx.driver.batch(lines)
+    dec_lines, dec_meta = [], []
+    for (kind, bits), mo in zip(cases, outs):
+        bm = EWAHBitmap()
+        for p in bits:
+            bm.add(p)
+        real = bm.encode()
+        ctx.count("fmt.ewah.enc", tuple(bits), True, kind)
+        if mo != "ok " + hx(real):
+            ctx.disagree("fmt.ewah.enc", {"bits": bits[:200], "n": len(bits)}, mo[:300], "ok " + hx(real)[:300])
+        # direct oracle: the real pair round-trips
+        back = _try(lambda: EWAHBitmap(real))
+        if isinstance(back, list) or back.bits != set(bits):
+            ctx.oracle_fail("fmt.ewah.roundtrip", {"bits": bits[:300], "encoded": hx(real)[:400]},
+                            f"EWAHBitmap(b.encode()).bits != b.bits ({kind})", None)
+        dec_lines.append("c14.ewah.dec " + hx(real))
+        dec_meta.append(("real-bytes", real, bits))
+        if mo.startswith("ok ") and mo != "ok " + hx(real):
+            mb = unhx(mo[3:])
+            dec_meta.append(("model-bytes", mb, bits))
+            dec_lines.append("c14.ewah.dec " + hx(mb))
+    # hand-made / hostile encodings: decoder vs decoder
+    for _ in range(ctx.budget(300)):
+        nwords = rng.randint(0, 6)
+        words = []
+        for _ in range(nwords):
+            if rng.random() < 0.5:
+                words.append((rng.choice([0, 1, 2, 3, 7]) << 33) | (rng.choice([0, 1, 2, 3, 5, 2 ** 32 - 1]) << 1) | rng.getrandbits(1))
+            else:
+                words.append(rng.choice([0, 2 ** 64 - 1, rng.getrandbits(64), rng.getrandbits(64)]))
+        bit_count = rng.choice([0, 1, 63, 64, 65, 128, 200, 640, 64 * nwords, 64 * max(nwords - 1, 0)])
+        wc = rng.choice([nwords, nwords, nwords, nwords + 1, max(nwords - 1, 0), 0])
+        data = struct.pack(">II", bit_count, wc) + b"".join(struct.pack(">Q", w) for w in words) + struct.pack(">I", 0)
+        if rng.random() < 0.2:
+            data = data[: rng.randrange(len(data) + 1)]
+        dec_lines.append("c14.ewah.dec " + hx(data))
+        dec_meta.append(("crafted", data, None))
+    outs = ctx.driver.batch(dec_lines)
+    for (src, data, bits), mo in zip(dec_meta, outs):
+        r = _try(lambda: EWAHBitmap(data) if data else EWAHBitmap())
+        if isinstance(r, list):
+            ro = "err format" if r[1] in ("ValueError", "error") else "exc " + r[1]
+        else:
+            ro = f"ok {r.bit_count} {_csv(sorted(r.bits))}"
+            bc = r.bit_count
+            # direct oracle: never a bit at or beyond ceil(bit_count/64)*64
+            if r.bits and max(r.bits) >= ((bc + 63) // 64) * 64:
+                ctx.oracle_fail("fmt.ewah.bounded", {"data": hx(data)}, "decoder emitted a bit beyond ceil(bit_count/64)*64", None)
+        ctx.count("fmt.ewah.dec", data, True, src + ":" + ro[:3])
+        if mo != ro:
+            ctx.disagree("fmt.ewah.dec", {"data": hx(data)[:400], "src": src}, mo[:300], ro[:300])
+        if bits is not None and not isinstance(r, list) and r.bits != set(bits):
+            ctx.oracle_fail("fmt.ewah.roundtrip", {"bits": bits[:300], "src": src}, "cross-decoding returned other bits", None)
+    # word-level encoder on arbitrary word lists (incl. trailing zero words)
+    wl = []
+    for _ in range(ctx.budget(200)):
+        ws = []
+        for _ in range(rng.randint(0, 10)):
+            t = rng.choice("zol")
+            ws += [0 if t == "z" else 2 ** 64 - 1 if t == "o" else rng.getrandbits(64)] * rng.randint(1, 3)
+        wl.append(ws)
+    outs = ctx.driver.batch(["c14.ewah.encwords " + _csv(ws) for ws in wl])
+    for ws, mo in zip(wl, outs):
+        ro = _csv(_encode_ewah_words(list(ws)))
+        ctx.count("fmt.ewah.words", tuple(ws), True, f"n{len(ws)}")
+        if mo != ro:
+            ctx.disagree("fmt.ewah.words", {"words": ws}, mo[:300], ro[:300])
+    ctx.sample({"stream": "fmt.ewah", "bits": cases[9][1][:20], "model==real": True})
+
+
+def _entry_arg(cid: bytes, tree: bytes, parents, gen: int, time: int) -> str:
+    return f"{hx(cid)}:{hx(tree)}:{gen}:{time}:" + (",".join(hx(p) for p in parents) if parents else "-")
+
+
+def _real_entries_str(g) -> str:
+    from dulwich.objects import hex_to_sha
+    return "ok" + "".join(" " + _entry_arg(hex_to_sha(e.commit_id), hex_to_sha(e.tree_id), [hex_to_sha(p) for p in e.parents],
+                                             e.generation, e.commit_time) for e in g.entries)
+
+
+def build_cg_file(oids, recs, edges=None, version=1, hash_version=1, sig=b"CGPH") -> bytes:
+    """Harness-side commit-graph builder for reader tests (independent of the model and of dulwich's writer):
+    recs = [(tree, p1, p2, gen_word, time_word)], edges = list of 32-bit words or None."""
+    import struct
+    fan = [0] * 256
+    for o in oids:
+        fan[o[0]] += 1
+    cum, tot = [], 0
+    for c in fan:
+        tot += c
+        cum.append(tot)
+    chunks = [(b"OIDF", b"".join(struct.pack(">L", c) for c in cum)), (b"OIDL", b"".join(oids)),
+              (b"CDAT", b"".join(t + struct.pack(">LLLL", a, b, g, tm) for t, a, b, g, tm in recs))]
+    if edges is not None:
+        chunks.append((b"EDGE", b"".join(struct.pack(">L", w) for w in edges)))
+    off = 8 + 12 * (len(chunks) + 1)
+    toc = b""
+    for cid, data in chunks:
+        toc += cid + struct.pack(">Q", off)
+        off += len(data)
+    toc += b"\x00\x00\x00\x00" + struct.pack(">Q", off)
+    return sig + bytes([version, hash_version, len(chunks), 0]) + toc + b"".join(d for _, d in chunks)
+
+
+def _cgit_graph_files(ctx):
+    """Commit-graph files written by C git for small histories with octopus merges (EDGE chunk), with the true
+    parent lists."""
+    import shutil
+    out = []
+    for k in range(2 if not ctx.thorough else 6):
+        root = ctx.scratch / f"cgit-{k}"
+        if root.exists():
+            shutil.rmtree(root)
+        tw = Twin(root, None)
+        try:
+            rng = ctx.rng
+            names = []
+            for i in range(rng.randint(5, 9)):
+                pool = names[-6:]
+                kk = 0 if not names else min(len(pool), rng.choice([1, 2, 3, 4, 5]))
+                tw.apply(["commit", f"g{i}", rng.sample(pool, kk), "loose"])
+                names.append(f"g{i}")
+                if rng.random() < 0.5:
+                    tw.apply(["ref", f"refs/heads/x{i}", f"g{i}", "dulwich"])
+            tw.apply(["ref", "refs/heads/master", names[-1], "dulwich"])
+            _git(tw.A.path, "commit-graph", "write", "--reachable")
+            p = tw.A.path / "objects" / "info" / "commit-graph"
+            if p.exists():
+                out.append((p.read_bytes(), dict(tw.parents)))
+        finally:
+            tw.close()
+            shutil.rmtree(root, ignore_errors=True)
+    return out
+
+
+def stream_cg(ctx):
+    from io import BytesIO
+    from dulwich.commit_graph import CommitGraph, CommitGraphEntry
+    from dulwich.object_format import SHA1
+    from dulwich.objects import hex_to_sha, sha_to_hex
+    rng = ctx.rng
+    wr_lines, wr_meta = [], []
+    for _ in range(ctx.budget(150)):
+        n = rng.choice([1, 1, 2, 3, 5, 8, 12])
+        pool = []
+        while len(pool) < n:
+            o = rng.randbytes(20)
+            if rng.random() < 0.4 and pool:
+                o = bytes([rng.choice(pool)[0]]) + o[1:]          # same fan-out bucket
+            if rng.random() < 0.1:
+                o = bytes([rng.choice([0, 255])]) + o[1:]
+            if o not in pool:
+                pool.append(o)
+        outside = [rng.randbytes(20) for _ in range(2)]
+        ents = []
+        for o in pool:
+            k = rng.choice([0, 1, 1, 2, 2, 3, 4])
+            src = pool + (outside if rng.random() < 0.3 else [])
+            parents = [rng.choice(src) for _ in range(k)]
+            gen = rng.choice([0, 1, 5, 2 ** 30 - 1, 2 ** 30 - 1, 2 ** 30] if rng.random() < 0.2 else [0, 1, 5, 77])
+            tm = rng.choice([0, 1, 1_600_000_000, 2 ** 32 - 1, 2 ** 32, 2 ** 33 + 5, 2 ** 34 - 1])
+            ents.append((o, rng.randbytes(20), parents, gen, tm))
+        rng.shuffle(ents)
+        g = CommitGraph(object_format=SHA1)
+        g.entries = [CommitGraphEntry(sha_to_hex(c), sha_to_hex(t), [sha_to_hex(p) for p in ps], gen, tm)
+                     for c, t, ps, gen, tm in ents]
+        f = BytesIO()
+        real = _try(lambda: (g.write_to_file(f), f.getvalue())[1])
+        wr_lines.append("c14.cg.write 1 " + " ".join(_entry_arg(*e) for e in ents))
+        wr_meta.append((ents, real))
+    outs = ctx.driver.batch(wr_lines)
+    rd_lines, rd_meta = [], []
+    for (ents, real), mo in zip(wr_meta, outs):
+        ro = "err format" if isinstance(real, list) else "ok " + hx(real)
+        ctx.count("fmt.cg.write", tuple(e[0] for e in ents), True, f"n{len(ents)}:maxp{max(len(e[2]) for e in ents)}")
+        if mo != ro:
+            ctx.disagree("fmt.cg.write", {"entries": [_entry_arg(*e) for e in ents]}, mo[:400], ro[:400])
+        if isinstance(real, list):
+            continue
+        rd_lines.append("c14.cg.read " + hx(real))
+        rd_meta.append(("dulwich-writer", real, ents))
+    # reader on harness-built files with EDGE chunks and odd parent words
+    M, X = 0x70000000, 0x80000000
+    for _ in range(ctx.budget(150)):
+        n = rng.randint(1, 6)
+        oids = sorted({rng.randbytes(20) for _ in range(n)})
+        n = len(oids)
+        edges = None
+        if rng.random() < 0.7:
+            edges = []
+            for _ in range(rng.randint(0, 6)):
+                w = rng.choice([rng.randrange(n), rng.randrange(n), n, n + 3, M])
+                if rng.random() < 0.35:
+                    w |= X
+                edges.append(w)
+        recs = []
+        for _ in oids:
+            odd = rng.random() < 0.12
+            p1 = rng.choice([n, M - 1, X, M + 1, 2 ** 32 - 1]) if odd else rng.choice([rng.randrange(n), rng.randrange(n), M])
+            odd = rng.random() < 0.12
+            p2 = rng.choice([n, M + 5, X | 1000, M - 1]) if odd else rng.choice(
+                [rng.randrange(n), M, M, X | rng.randrange(max(len(edges or []), 1) + 1), X])
+            recs.append((rng.randbytes(20), p1, p2, rng.getrandbits(32), rng.getrandbits(32)))
+        kw = {}
+        r = rng.random()
+        if r < 0.05:
+            kw["sig"] = b"CGPX"
+        elif r < 0.1:
+            kw["version"] = 2
+        elif r < 0.15:
+            kw["hash_version"] = rng.choice([0, 3])
+        data = build_cg_file(oids, recs, edges, **kw)
+        rd_lines.append("c14.cg.read " + hx(data))
+        rd_meta.append(("crafted", data, None))
+    for data, truth in _cgit_graph_files(ctx):
+        rd_lines.append("c14.cg.read " + hx(data))
+        rd_meta.append(("git-writer", data, None))
+        g = _try(lambda: CommitGraph.from_file(BytesIO(data)))
+        for c, ps in truth.items():
+            got = None if isinstance(g, list) else g.get_parents(c)
+            ctx.count("fmt.cg.git", (data, c), True, f"p{len(ps)}")
+            if got is not None and got != ps:
+                ctx.oracle_fail("fmt.cg.git", {"file": hx(data)[:600], "commit": c.decode(), "got": [x.decode() for x in got],
+                                               "want": [x.decode() for x in ps]},
+                                "commit-graph written by C git is read back with other parents", None)
+    outs = ctx.driver.batch(rd_lines)
+    gp_lines, gp_meta = [], []
+    for (src, data, ents), mo in zip(rd_meta, outs):
+        g = _try(lambda: CommitGraph.from_file(BytesIO(data)))
+        if isinstance(g, list):
+            ro = "err format" if g[1] in ("ValueError", "error") else "exc " + g[1]
+        else:
+            ro = _real_entries_str(g)
+        ctx.count("fmt.cg.read", data, True, src + ":" + ro[:3])
+        if mo != ro:
+            ctx.disagree("fmt.cg.read", {"file": hx(data)[:600], "src": src}, mo[:400], ro[:400])
+        if isinstance(g, list):
+            continue
+        if ents is not None:
+            # direct oracle on the format pair, in the property's words: the reader of the written file gives
+            # every commit's full parent list
+            inside = {e[0] for e in ents}
+            for c, _t, ps, _g, _tm in ents:
+                got = g.get_parents(sha_to_hex(c))
+                want = [sha_to_hex(p) for p in ps]
+                if got != want:
+                    octo = len(ps) > 2
+                    stored = ps[:2] if octo else ps
+                    cls = None
+                    if got == [sha_to_hex(p) for p in stored if p in inside]:
+                        cls = "commit-graph-octopus-parents-truncated" if octo else "commit-graph-parent-outside-set-dropped"
+                    ctx.oracle_fail("fmt.cg.roundtrip", {"entries": [_entry_arg(*e) for e in ents], "commit": hx(c)},
+                                    f"reader(writer(entries)) returns {len(got or [])} of {len(want)} parents", cls)
+                    break
+        qs = [e.commit_id for e in g.entries][:4] + [sha_to_hex(rng.randbytes(20))]
+        gp_lines.append("c14.cg.getparents " + hx(data) + " " + " ".join(hx(hex_to_sha(q)) for q in qs))
+        gp_meta.append((data, g, qs))
+    outs = ctx.driver.batch(gp_lines)
+    for (data, g, qs), mo in zip(gp_meta, outs):
+        parts = []
+        for q in qs:
+            ps = g.get_parents(q)
+            parts.append("none" if ps is None else (",".join(hx(hex_to_sha(p)) for p in ps) if ps else "-"))
+        ro = "ok " + " ".join(parts)
+        ctx.count("fmt.cg.getparents", (data, tuple(qs)), True, "q")
+        if mo != ro:
+            ctx.disagree("fmt.cg.getparents", {"file": hx(data)[:400]}, mo[:300], ro[:300])
+
+
+def stream_midx(ctx):
+    import struct
+    from io import BytesIO
+    from dulwich.midx import MultiPackIndex, write_midx
+    rng = ctx.rng
+    for it in range(ctx.budget(60)):
+        n = rng.choice([0, 1, 2, 3, 8, 20, 50])
+        oids = set()
+        while len(oids) < n:
+            o = rng.randbytes(20)
+            r = rng.random()
+            if r < 0.3 and oids:
+                o = bytes([rng.choice(sorted(oids))[0]]) + o[1:]
+            elif r < 0.45:
+                o = bytes([rng.choice([0, 1, 254, 255])]) + o[1:]
+            oids.add(o)
+        oids = sorted(oids)
+        offs = {}
+        used = set()
+        for o in oids:
+            while True:
+                v = rng.choice([rng.randrange(1, 10 ** 6), 2 ** 31 - 1, 2 ** 31, 2 ** 31 + rng.randrange(100), 2 ** 32 + rng.randrange(100),
+                                2 ** 40 + rng.randrange(100)]) if rng.random() < 0.4 else rng.randrange(12, 10 ** 7)
+                if v not in used:
+                    used.add(v)
+                    break
+            offs[o] = v
+        npacks = rng.randint(1, 3)
+        packs = [(f"pack-{i:040x}.idx", []) for i in range(npacks)]
+        where = {}
+        for o in oids:
+            k = rng.randrange(npacks)
+            packs[k][1].append((o, offs[o], None))
+            where[o] = k
+            if rng.random() < 0.15 and npacks > 1:                      # duplicate in another pack
+                k2 = (k + 1) % npacks
+                packs[k2][1].append((o, offs[o] + 1, None))
+                where[o] = min(k, k2)
+        f = BytesIO()
+        write_midx(f, packs)
+        data = f.getvalue()
+        m = MultiPackIndex("mem", contents=data)
+        fan = list(m._fanout_table)
+        table = [bytes(m._get_oid(i)) for i in range(len(m))]
+        if n == 0:
+            continue
+        probes = list(oids[:6])
+        for o in oids[:4]:
+            v = int.from_bytes(o, "big")
+            probes += [(v + d).to_bytes(20, "big") for d in (-1, 1) if 0 <= v + d < 2 ** 160]
+        probes += [rng.randbytes(20) for _ in range(3)] + [b"\x00" * 20, b"\xff" * 20,
+                                                          bytes([oids[0][0]]) + b"\x00" * 19, bytes([oids[-1][0]]) + b"\xff" * 19]
+        written = {o: next(off for (oo, off, _c) in packs[where[o]][1] if oo == o) for o in oids}
+        lines = ["c14.midx.fanout " + ",".join(hx(o) for o in oids),
+                 "c14.midx.lookups " + _csv(fan) + " " + ",".join(hx(o) for o in table) + " " + ",".join(hx(p) for p in probes),
+                 "c14.midx.offsets " + _csv([written.get(o, 0) for o in table])]
+        o_fan, o_look, o_off = ctx.driver.batch(lines)
+        ctx.count("fmt.midx.fanout", tuple(oids), True, f"n{n}")
+        if o_fan != _csv(fan) or table != oids:
+            ctx.disagree("fmt.midx.fanout", {"oids": [hx(o) for o in oids][:40]}, o_fan[:300], _csv(fan)[:300])
+        reals = []
+        for p in probes:
+            r = _try(lambda: m.object_offset(p))
+            if r is None:
+                reals.append("none")
+            elif isinstance(r, list):
+                reals.append("err-other")
+            else:
+                name, off = r
+                if p in written and (name != packs[where[p]][0] or off != written[p]):
+                    ctx.oracle_fail("fmt.midx.lookup", {"oid": hx(p), "got": [name, off], "want": [packs[where[p]][0], written[p]]},
+                                    "MIDX lookup returns another pack/offset than the one written", None)
+                reals.append(str(table.index(p)) if p in table else "ghost")
+            ctx.count("fmt.midx.lookup", (tuple(oids), p), True, "hit" if reals[-1].isdigit() else reals[-1])
+            # direct oracle: the lookup answers exactly for the ids that were written
+            if (p in offs) != reals[-1].isdigit():
+                ctx.oracle_fail("fmt.midx.lookup", {"oid": hx(p), "present": p in offs, "answer": reals[-1],
+                                                    "oids": [hx(o) for o in oids][:60]},
+                                "MIDX lookup disagrees with the set of ids written", None)
+        if o_look != " ".join(reals):
+            ctx.disagree("fmt.midx.lookup", {"oids": [hx(o) for o in table][:40], "probes": [hx(p) for p in probes]},
+                         o_look[:300], " ".join(reals)[:300])
+        # OOFF / LOFF words as written vs the model's spill
+        ooff = [struct.unpack(">L", data[m._ooff_offset + 8 * i + 4: m._ooff_offset + 8 * i + 8])[0] for i in range(len(m))]
+        nl = sum(1 for w in ooff if w & 0x80000000)
+        loff = [struct.unpack(">Q", data[m._loff_offset + 8 * i: m._loff_offset + 8 * i + 8])[0] for i in range(nl)] if nl else []
+        dec = [str(m._get_pack_info(i)[1]) for i in range(len(m))]
+        ro = f"{_csv(ooff)} {_csv(loff)} {','.join(dec)}"
+        ctx.count("fmt.midx.offsets", tuple(ooff), True, f"large{nl}")
+        if o_off != ro:
+            ctx.disagree("fmt.midx.offsets", {"n": n}, o_off[:300], ro[:300])
+        m.close()
+
+
+def stream_gate_refs(ctx):
+    import shutil
+    from io import BytesIO
+    from dulwich.bitmap import PackBitmap, read_bitmap_file, write_bitmap_file
+    from dulwich.errors import ChecksumMismatch
+    from dulwich.refs import DiskRefsContainer
+    rng = ctx.rng
+    lines, meta = [], []
+    for _ in range(ctx.budget(40)):
+        a = rng.randbytes(20)
+        b = a if rng.random() < 0.4 else (a[:19] + bytes([a[19] ^ 1]) if rng.random() < 0.5 else rng.randbytes(20))
+        bm = PackBitmap()
+        bm.pack_checksum = b
+        f = BytesIO()
+        write_bitmap_file(f, bm)
+        try:
+            read_bitmap_file(BytesIO(f.getvalue()), pack_checksum=a)
+            real = "1"
+        except ChecksumMismatch:
+            real = "0"
+        lines.append(f"c14.gate {hx(a)} {hx(b)}")
+        meta.append((a, b, real))
+    outs = ctx.driver.batch(lines)
+    for (a, b, real), mo in zip(meta, outs):
+        ctx.count("fmt.gate", (a, b), True, real)
+        if mo != real:
+            ctx.disagree("fmt.gate", {"pack": hx(a), "stored": hx(b)}, mo, real)
+        # direct oracle: a bitmap recorded for another pack is rejected, one for this pack accepted
+        if (a == b) != (real == "1"):
+            ctx.oracle_fail("fmt.gate", {"pack": hx(a), "stored": hx(b)}, "bitmap checksum gate does not separate own/foreign packs",
+                            "bitmap-for-other-pack-trusted")
+    # refs: loose files over packed-refs
+    names = ["refs/heads/a", "refs/heads/b", "refs/tags/t", "refs/heads/x/y"]
+    shas = [("%040x" % (i + 1)) for i in range(5)]
+    lines, meta = [], []
+    for it in range(ctx.budget(30)):
+        d = ctx.scratch / f"refs-{it}"
+        if d.exists():
+            shutil.rmtree(d)
+        d.mkdir(parents=True)
+        loose = {n: rng.choice(shas) for n in names if rng.random() < 0.5}
+        packed = {n: rng.choice(shas) for n in names if rng.random() < 0.6}
+        for n, v in loose.items():
+            p = d / n
+            p.parent.mkdir(parents=True, exist_ok=True)
+            p.write_text(v + "\n")
+        if packed or rng.random() < 0.5:
+            (d / "packed-refs").write_text("# pack-refs with: peeled fully-peeled sorted \n" +
+                                           "".join(f"{v} {n}\n" for n, v in sorted(packed.items())))
+        lm = ";".join(f"{k}={v}" for k, v in loose.items()) or "-"
+        pm = ";".join(f"{k}={v}" for k, v in packed.items()) or "-"
+        rc = DiskRefsContainer(str(d))
+        for n in names + ["refs/heads/none"]:
+            real = rc.read_ref(n.encode())
+            lines.append(f"c14.refs.read {lm} {pm} {n}")
+            meta.append(("read", (real or b"none").decode()))
+            # direct oracle: loose wins, packed otherwise
+            want = loose.get(n, packed.get(n, "none"))
+            if (real or b"none").decode() != want:
+                ctx.oracle_fail("fmt.refs.read", {"loose": loose, "packed": packed, "name": n, "got": (real or b"none").decode()},
+                                "read_ref does not give the loose value, or the packed value when there is no loose file", None)
+        # pack_refs(all=True), then look at the files themselves
+        sel = [n for n in names if n in loose or n in packed]
+        rc.pack_refs(all=True)
+        for n in names:
+            lf = d / n
+            lval = lf.read_text().strip() if lf.is_file() else "none"
+            pval = "none"
+            if (d / "packed-refs").exists():
+                for ln in (d / "packed-refs").read_text().splitlines():
+                    if ln.endswith(" " + n) and not ln.startswith("#"):
+                        pval = ln.split(" ")[0]
+            rval = (DiskRefsContainer(str(d)).read_ref(n.encode()) or b"none").decode()
+            lines.append(f"c14.refs.pack {lm} {pm} {','.join(sel) or '-'} {n}")
+            meta.append(("pack", f"{lval} {pval} {rval}"))
+        shutil.rmtree(d, ignore_errors=True)
+    outs = ctx.driver.batch(lines)
+    for (what, real), mo, ln in zip(meta, outs, lines):
+        ctx.count("fmt.refs." + what, ln, True, what)
+        if mo != real:
+            ctx.disagree("fmt.refs." + what, {"line": ln}, mo, real)
+
+
 def run_corpus(ctx):
     """Negation witnesses / minimised past failures and always-on probes: scripted scenarios, replayed first on
     every run."""
